@@ -182,6 +182,19 @@ func genTiePair(r *vk.Rng, kind string) (*big.Int, *big.Int) {
 	case "quo36trunc": // exact quotient just above a tie, truncated-at-72 value is the tie
 		a = new(big.Int).Add(new(big.Int).Mul(new(big.Int).Add(new(big.Int).Mul(m, bigTwo), bigOne), new(big.Int).Mul(big.NewInt(5), pow10(39))), bigOne)
 		b = pow10(76)
+	case "quo36deep": // exact quotient a hair above / below a tie, the difference showing anywhere in decimals 38..72
+		k := 2 + r.Intn(35)
+		u := new(big.Int).Mul(big.NewInt(1+r.I64n(999)), pow10(r.Intn(k-1)))
+		if u.Cmp(pow10(k-1)) >= 0 {
+			u = big.NewInt(1)
+		}
+		a = new(big.Int).Mul(new(big.Int).Add(new(big.Int).Mul(m, bigTwo), bigOne), new(big.Int).Mul(big.NewInt(5), pow10(k-1)))
+		if r.Bool() {
+			a.Add(a, u)
+		} else {
+			a.Sub(a, u)
+		}
+		b = pow10(36 + k)
 	default:
 		a, b = m, odd
 	}
@@ -402,7 +415,7 @@ func callBD(f func() *big.Int) (res *big.Int, panicked bool, msg string) {
 }
 
 func runC12(c *vk.Ctx) {
-	c.R.Rule = "cases = (method, operand pair) drawn from a seed-determined generator mixing zero, ulps, powers of ten ±ulp, constructed rounding ties (both parities), whole numbers, 18-in-36-decimal values, log-uniform bit lengths up to the 1144/1024-bit bounds and values adjacent to the bound, both signs; each result compared with exact big.Int arithmetic. distinct_nontrivial counts distinct (method, sign of operand A, sign of operand B, outcome class) where outcome class ∈ {exact, rounded up, rounded down, tie→up, tie→down, overflow-panic, div-by-zero-panic, encoding round trip}."
+	c.R.Rule = "cases = (method, operand pair) drawn from a seed-determined generator mixing zero, ulps, powers of ten ±ulp, constructed rounding ties (both parities) and near-ties whose distance from the tie shows only somewhere in decimals 38..72, whole numbers, 18-in-36-decimal values, log-uniform bit lengths up to the 1144/1024-bit bounds and values adjacent to the bound, both signs; each result compared with exact big.Int arithmetic. distinct_nontrivial counts distinct (method, sign of operand A, sign of operand B, outcome class) where outcome class ∈ {exact, rounded up, rounded down, tie→up, tie→down, overflow-panic, div-by-zero-panic, encoding round trip}."
 	ops := bdOps()
 	uops := bdUnOps()
 	nBin := c.N(60000, 6000000)
@@ -411,7 +424,7 @@ func runC12(c *vk.Ctx) {
 		var ai, bi *big.Int
 		tie := r.Intn(5) == 0
 		if tie {
-			kinds := []string{"mul36", "mul18", "quo36", "quo36trunc"}
+			kinds := []string{"mul36", "mul18", "quo36", "quo36trunc", "quo36deep", "quo36deep"}
 			ai, bi = genTiePair(r, kinds[r.Intn(len(kinds))])
 		} else {
 			ai = genScaled(r, 36, bdMaxBit)
